@@ -145,18 +145,19 @@ def evaluate(name, items, shard=150):
             i = s0 + j
             txt.append(f"Definition a{i} : ast := {a}.")
             txt.append(f"Definition q{i} : query := {q}.")
-            ents.append(f"({i}, l3_check a{i} q{i} {l} {sc} {lg})")
+            ents.append(f"({j}, l3_check a{i} q{i} {l} {sc} {lg})")        # file-local number (a large nat literal is unary)
         txt.append("Eval vm_compute in [" + ";\n ".join(ents) + "]%nat.\n")
         f = CASES / f"{name}_l3_{s0 // shard}.v"
         f.write_text("\n".join(txt))
-        files.append(f)
+        files.append((f, s0))
 
-    def go(f):
+    def go(fo):
+        f = fo[0]
         return subprocess.run(["bash", "-c", f"ulimit -s unlimited; timeout 900 coqc {' '.join(common.COQ_ARGS)} {f}"],
                               capture_output=True, text=True, cwd=common.COQ)
     res, errors = {}, []
     with ThreadPoolExecutor(common.NPROC) as ex:
-        for f, p in zip(files, ex.map(go, files)):
+        for (f, off), p in zip(files, ex.map(go, files)):
             if p.returncode != 0:
                 errors.append(f"{f.name}: {(p.stderr or p.stdout)[-1200:]}")
                 continue
@@ -167,7 +168,7 @@ def evaluate(name, items, shard=150):
                     i, dom, diff, fl = g[0], g[1], g[2], g[3]
                 else:
                     i, dom, diff, fl = g[4], g[5], g[6], g[7]
-                res[items[int(i)][0]] = (int(dom), [int(x) for x in diff.split(";") if x], int(fl))
+                res[items[int(i) + off][0]] = (int(dom), [int(x) for x in diff.split(";") if x], int(fl))
     return res, errors
 
 
@@ -220,18 +221,19 @@ def evaluate_polars(name, items, shard=120):
             i = s0 + j
             txt.append(f"Definition d{i} : db := {dbc}.")
             txt.append(f"Definition a{i} : ast := {a}.")
-            ents.append(f"({i}, pl3_check d{i} a{i} {sel} {part} {names} {keys})")
+            ents.append(f"({j}, pl3_check d{i} a{i} {sel} {part} {names} {keys})")
         txt.append("Eval vm_compute in [" + ";\n ".join(ents) + "]%nat.\n")
         f = CASES / f"{name}_pl3_{s0 // shard}.v"
         f.write_text("\n".join(txt))
-        files.append(f)
+        files.append((f, s0))
 
-    def go(f):
+    def go(fo):
+        f = fo[0]
         return subprocess.run(["bash", "-c", f"ulimit -s unlimited; timeout 900 coqc {' '.join(common.COQ_ARGS)} {f}"],
                               capture_output=True, text=True, cwd=common.COQ)
     res, errors = {}, []
     with ThreadPoolExecutor(common.NPROC) as ex:
-        for f, p in zip(files, ex.map(go, files)):
+        for (f, off), p in zip(files, ex.map(go, files)):
             if p.returncode != 0:
                 errors.append(f"{f.name}: {(p.stderr or p.stdout)[-1200:]}")
                 continue
@@ -239,7 +241,7 @@ def evaluate_polars(name, items, shard=120):
             for m in re.finditer(r"\((\d+),\((\d+),\[([\d;]*)\],(\d+)\)\)|\((\d+),(\d+),\[([\d;]*)\],(\d+)\)", flat):
                 g = m.groups()
                 i, dom, diff, fl = (g[0], g[1], g[2], g[3]) if g[0] is not None else (g[4], g[5], g[6], g[7])
-                res[items[int(i)][0]] = (int(dom), [int(x) for x in diff.split(";") if x], int(fl))
+                res[items[int(i) + off][0]] = (int(dom), [int(x) for x in diff.split(";") if x], int(fl))
     return res, errors
 
 
